@@ -8,10 +8,19 @@ def run(ck):
                "link write fails; remote: STATUS_OK / NO_DIRECT / UNKNOWN_ERROR / wrong server / proxy dial error / proxy dial without "
                "address) x lookup {ok, one slot failing, all slots failing}; each case runs through the real DialClient -> routeCache -> "
                "getConn, the remote node being a second real Server (handleProxyConn) over an in-memory pipe and every client a goroutine "
-               "that records the link frame and a probe written to the returned connection; non-trivial = at least one route")
+               "that records the link frame and a probe written to the returned connection; every connection request is made twice (the second one "
+               "finds the route cache warm) and both are judged; non-trivial = at least one route")
     mr = 3
 
     def judge(c, e, o):
+        r = judge1(c, e, o)
+        if r is None and o.get("second"):
+            r = judge1(c, e, o["second"])
+            if r is not None:
+                r = "second connection request for the same hostname (route cache warm): " + r
+        return r
+
+    def judge1(c, e, o):
         if o["strays"]:
             return "a peer outside H's routes was dialled: %s" % o["strays"][:2]
         kind = o["kind"]
@@ -21,11 +30,14 @@ def run(ck):
         if any(a < 1 or a > n for a in o["attempts"]):
             return "attempted a route that is not one of H's: %s" % o["attempts"]
         seen_remote = False
-        for a in o["attempts"]:
+        for k, a in enumerate(o["attempts"]):
             if a in e["locals"]:
                 if seen_remote:
                     return "a route through a remote node was tried before a route through the local node: attempts %s, local %s" % (o["attempts"], e["locals"])
             else:
+                if not seen_remote and not set(e["locals"]) <= set(o["attempts"][:k]):
+                    return ("a route through a remote node was tried although the route(s) through the local node had not been tried: attempts %s, local %s"
+                            % (o["attempts"], e["locals"]))
                 seen_remote = True
         if kind == "conn":
             if o["client"] not in e["clients"]:
@@ -37,6 +49,11 @@ def run(ck):
         return None
 
     def sig(c, e, o):
+        if judge1(c, e, o) is None and o.get("second"):
+            return sig1(c, e, o["second"]) + ":second-request"
+        return sig1(c, e, o)
+
+    def sig1(c, e, o):
         if o["strays"]:
             return "C27:stray-dial"
         kind = o["kind"]
